@@ -53,6 +53,8 @@ func TestVerifReplayC19R4g(t *testing.T) {
 		"machine a login la password pa\n",
 		"machine a login la password pa\nmachine b login lb password pb\n",
 		"machine b login lb password pb\ndefault login ld password pd\n",
+		// a file that already has two entries of one name: after a put of that name there must be exactly one
+		"machine a login la password pa\nmachine b login lb password pb\nmachine a login lx password px\n",
 		"machine a login la password pa\nmachine go.a login lg password pg\nmachine b login lb password pb\ndefault login ld password pd\n",
 	}
 	names := []string{"a", "b", "c", "go.a"}
